@@ -1594,3 +1594,51 @@ Q(name="e2_handle_packet_tail", props=["C08"], func=r"connection/mod\.rs:245:1[^
   functions=["Connection::handle_packet (slice: from `if !was_closed && self.state.is_closed()` to the end)"], pre=lambda c: "true", post=hpt_post,
   bounds="the closing lines of handle_packet, executed from an ARBITRARY state (every local and all memory unconstrained - an over-approximation of whatever the packet processing before it did): on every path that queues EndpointEvent::Drained, the Close timer is stopped afterwards and not armed again; the slice is located through the source text of the function",
   replay=("conn_handle_packet_tail_native", lambda m: [dict(x=0)]))
+
+
+# ------------------------------------------------------------------ C14: a client follows a Retry only if it is the first server packet, carries a token and its integrity tag verifies (slice)
+def ra_post(c, p):
+    st = p.p.state
+    vr = p.called(r"is_valid_retry$")
+    tap = c.inp(_conn(c, "total_authed_packets"), BV64)
+    if p.p.outcome == "stop":
+        # the Retry is acted upon
+        if len(vr) != 1:
+            return "false"
+        a = vr[0][1]
+        act = p.called(r"CidQueue::active$")
+        ok_args = bool(act) and a[1] == ("agg", act[0][2]) or (a[1][0] == "agg" and "CidQueue::active" in str(a[1][1]))
+        res = c.ex.read_key(st, vr[0][2], BOOL).t if not str(vr[0][2]).startswith("|") else vr[0][2]
+        return and_(ule(tap, bv(1)), res, "true" if ok_args else "false")
+    # discarded: nothing of the Retry is used
+    upd = p.called(r"update_initial_cid$|discard_space$")
+    return "true" if not upd else "false"
+
+
+Q(name="e2_retry_acceptance_slice", props=["C14", "C04"], func=r"connection/mod\.rs:245:1[^>]*>::process_decrypted_packet$",
+  src="connection/mod.rs", within=r"^    fn process_decrypted_packet\(", start_line=r"if self\.total_authed_packets >", end_line=r"let client_hello = state\.client_hello\.take\(\)\.unwrap\(\);",
+  pure=[r"is_valid_retry$", r"CidQueue::active$", r"BytesMut::len$", r"Bytes::len$"], check_stop=True, allowed_panics=r".",
+  functions=["Connection::process_decrypted_packet (slice: the Retry acceptance test)"], pre=lambda c: "true", post=ra_post,
+  bounds="the acceptance test of the Retry arm, from an arbitrary state: the code after it is reached only if no more than one packet has been authenticated so far and Session::is_valid_retry - asked about the currently active remote CID - said yes; otherwise the packet is dropped without touching CIDs or packet spaces; located through the source text",
+  replay=("conn_retry_native", lambda m: [dict(valid=v, authed_before=a) for v in (0, 1) for a in (0, 1, 2)]))
+
+
+# ------------------------------------------------------------------ C12: following a Retry discards the old Initial space (its packets leave bytes-in-flight) before a fresh one is installed (slice)
+def rs_post(c, p):
+    st = p.p.state
+    if p.p.outcome != "stop":
+        return "true"
+    names = [x[0] for x in st.calls]
+    ds = [i for i, x in enumerate(st.calls) if re.search(r"discard_space$", x[0]) and "'SpaceId', 0)" in str(x[1][2])]
+    new = [i for i, n in enumerate(names) if re.search(r"PacketSpace::new$", n)]
+    if not new:
+        return "false"
+    return "true" if (ds and ds[0] < new[0]) else "false"
+
+
+Q(name="e2_retry_resets_initial_space_slice", props=["C12"], func=r"connection/mod\.rs:245:1[^>]*>::process_decrypted_packet$",
+  src="connection/mod.rs", within=r"^    fn process_decrypted_packet\(", start_line=r"let client_hello = state\.client_hello\.take\(\)\.unwrap\(\);", end_line=r"let zero_rtt = mem::take\(",
+  check_stop=True, allowed_panics=r".", ignore_untranslatable=r"^loop at",
+  functions=["Connection::process_decrypted_packet (slice: re-initialisation of the Initial space after a Retry)"], pre=lambda c: "true", post=rs_post,
+  bounds="from an arbitrary state: before the Initial packet space is replaced by a fresh one, discard_space(Initial) has run, so every Initial packet still in flight is removed from the congestion controller's bytes-in-flight; located through the source text",
+  replay=("conn_retry_native", lambda m: [dict(valid=1, authed_before=0), dict(valid=1, authed_before=1)]))
